@@ -603,7 +603,19 @@ def run_case(ctx, rng, job):
             g.add_instance()
     if prop == 'C02' and rng.random() < 0.35:
         g.add_twin()
-    check = (lambda: (g.check_reach(), g.check_twin())) if prop == 'C02' else g.check_orders
+    check_all = (lambda: (g.check_reach(), g.check_twin())) if prop == 'C02' else g.check_orders
+    # "interleaved with queries": besides histories queried after every mutation, histories queried only now and
+    # then or only at the end (several re-basings hit specifications nobody has asked anything in between)
+    check_p = rng.choice([1.0, 1.0, 0.3, 0.0])
+    pending = [False]
+
+    def check():
+        if check_p >= 1.0 or rng.random() < check_p:
+            pending[0] = False
+            ctx.count('check_points[%s]' % ('every-step' if check_p >= 1.0 else 'sparse'))
+            check_all()
+        else:
+            pending[0] = True
     if not g.dead:
         check()
     steps = rng.randint(1, 12 if big else 6)
@@ -627,6 +639,9 @@ def run_case(ctx, rng, job):
         if g.dead:
             break
         check()
+    if pending[0] and not g.dead:
+        ctx.count('check_points[deferred-to-end]')
+        check_all()
     shape = tuple((m.kind, tuple(sorted(g.name_of(b) for b in m.spec.__bases__))) for m in g.nodes)
     if prop == 'C02':
         ctx.shape(shape, nontrivial=g.nontrivial)
